@@ -465,6 +465,29 @@ class PCBO(PUBO):
             for k, v in args[0]._constraints.items():
                 self._constraints.setdefault(k, []).extend(v)
 
+    def __imul__(self, other):
+        """__imul__.
+
+        Same as ``PUBO.__imul__``, but the constraints and the ancilla counter
+        are kept. Multiplying by a dict rebuilds the terms via ``clear``,
+        which would otherwise forget them and cause later constraints to reuse
+        ancilla names that are still present in the model.
+
+        Parameters
+        ----------
+        other : numeric or dict object.
+
+        Return
+        ------
+        self : updated in place.
+
+        """
+        ancilla, constraints = self._ancilla, self._constraints
+        # use self.__class__ here because PCSO uses this code as well.
+        super(self.__class__, self).__imul__(other)
+        self._ancilla, self._constraints = ancilla, constraints
+        return self
+
     @property
     def constraints(self):
         """constraints.
